@@ -85,7 +85,21 @@ class DmrRequester:
 
     async def async_http_request(self, method, url, headers=None, body=None):
         await asyncio.sleep(0)
+        if method == "SUBSCRIBE":
+            return 200, {"sid": "uuid:sid-" + url.rsplit("/", 1)[-1], "timeout": "Second-1800"}, ""
+        if method == "UNSUBSCRIBE":
+            return 200, {}, ""
         return 200, {}, self.files[url]
+
+
+class FakeNotifyServer:
+    callback_url = "http://192.0.2.1:8000/notify"
+
+    async def async_start_server(self) -> None:
+        pass
+
+    async def async_stop_server(self) -> None:
+        pass
 
 
 _ENV: Dict[str, Any] = {}
@@ -101,14 +115,17 @@ def env() -> Dict[str, Any]:
     from async_upnp_client.profiles import dlna
 
     logging.getLogger("async_upnp_client").setLevel(logging.CRITICAL)
+    from async_upnp_client.event_handler import UpnpEventHandler
+
     loop = asyncio.new_event_loop()
-    device = loop.run_until_complete(UpnpFactory(DmrRequester()).async_create_device(BASE + "/d.xml"))
-    loop.close()
-    prof = dlna.DmrDevice(device, None)
+    req = DmrRequester()
+    device = loop.run_until_complete(UpnpFactory(req).async_create_device(BASE + "/d.xml"))
+    handler = UpnpEventHandler(FakeNotifyServer(), req)  # type: ignore[arg-type]
+    prof = dlna.DmrDevice(device, handler)
     log: List[List[str]] = []
     prof.on_event = lambda service, svars: log.append([sv.name for sv in svars])
-    for svc in device.services.values():
-        svc.on_event = prof._on_event  # what async_subscribe_services installs
+    # the normal event path: subscribing installs DmrDevice._on_event on every service and registers the SIDs
+    loop.run_until_complete(prof.async_subscribe_services())
     base_cls = dlna.DlnaDmrEventContentHandler
     tee: Dict[str, Any] = {"events": [], "handler": None}
 
@@ -127,7 +144,7 @@ def env() -> Dict[str, Any]:
             super().endElement(name)
 
     dlna.DlnaDmrEventContentHandler = TeeHandler  # type: ignore[misc]
-    _ENV.update(device=device, prof=prof, log=log, tee=tee, dlna=dlna)
+    _ENV.update(device=device, prof=prof, log=log, tee=tee, dlna=dlna, loop=loop, handler=handler)
     return _ENV
 
 
@@ -138,7 +155,7 @@ VALUE_ALPHABET = list("abcXYZ019 .-_:/") + ["&", "<", ">", '"', "'", "é", "漢"
 UNKNOWN_NAMES = ["Bogus", "X_Other", "volume", "A-b.c_d", "Événement"]
 PREFIXES = [None, None, None, "rcs", "avt", "p1", "x-y"]
 CHANNELS = [None, None, None, "Master", "Master", "LF", "RF", "", "master"]
-IDS = ["0", "0", "0", "0", "1", "2", "3", "10", "4294967295", "", "00"]
+IDS = ["0"] * 8 + ["1", "2", "3", "10", "4294967295", "", "00"]
 
 
 def gen_value(rng: random.Random, dtype: str) -> str:
@@ -163,7 +180,8 @@ def gen_doc(rng: random.Random, svc_key: str) -> Dict[str, Any]:
         insts.append({"id": rng.choice(IDS), "entries": entries})
     root = rng.choice([[], [["xmlns", "urn:schemas-upnp-org:metadata-1-0/RCS/"]],
                        [["xmlns", "urn:schemas-upnp-org:metadata-1-0/AVT/"], ["xmlns:rcs", "urn:x"], ["xmlns:avt", "urn:y"]]])
-    return {"kind": "doc", "svc": svc_key, "root": root, "ops": insts, "style": rng.randrange(0, 2**30)}
+    return {"kind": "doc", "svc": svc_key, "root": root, "ops": insts, "style": rng.randrange(0, 2**30),
+            "via": rng.choice(["direct", "direct", "notify"])}
 
 
 def esc(rng: random.Random, s: str, quote: str) -> str:
@@ -314,7 +332,17 @@ def run_value(cid: str, recipe: Dict[str, Any], text: Optional[str], doc: Option
     e["tee"]["events"] = []
     raised = "no"
     try:
-        svc.notify_changed_state_variables({"LastChange": text or ""})
+        if recipe.get("via") == "notify":
+            # a GENA NOTIFY through UpnpEventHandler.handle_notify (the value travels escaped inside the propertyset)
+            from xml.sax.saxutils import escape
+            body = ('<?xml version="1.0"?><e:propertyset xmlns:e="urn:schemas-upnp-org:event-1-0"><e:property>'
+                    f"<LastChange>{escape(text or '')}</LastChange></e:property></e:propertyset>")
+            sid = e["handler"].sid_for_service(svc)
+            status = e["loop"].run_until_complete(e["handler"].handle_notify(
+                {"NT": "upnp:event", "NTS": "upnp:propchange", "SID": sid}, body))
+            tags.add(f"via:notify:{int(status)}")
+        else:
+            svc.notify_changed_state_variables({"LastChange": text or ""})
     except Exception as ex:  # noqa: BLE001
         raised = exc_token(ex)
         tags.add("raised:" + raised)
@@ -370,6 +398,9 @@ CORPUS: List[Dict[str, Any]] = [
      "ops": [{"id": "0", "entries": [E("Volume", "1", None, "rcs"), E("Volume", "2", "Master", "x-y")]},
              {"id": "2", "entries": []}, {"id": "0", "entries": [E("Mute", "1", "Master")]}]},
     {"kind": "doc", "svc": "RC", "root": [], "style": 6, "ops": []},
+    {"kind": "doc", "svc": "RC", "root": [["xmlns", "urn:schemas-upnp-org:metadata-1-0/RCS/"]], "style": 11, "via": "notify",
+     "ops": [{"id": "0", "entries": [E("Mute", "1", "Master"), E("PresetNameList", "a&b<c>\"'\n é", None, "rcs")]}]},
+    {"kind": "empty", "svc": "AVT", "via": "notify"},
     # F19b: an instance whose id is the empty string is not instance 0
     {"kind": "doc", "svc": "RC", "root": [], "style": 7, "ops": [{"id": "", "entries": [E("Volume", "6", "Master")]}]},
     # F19a: declared encodings (styles 3, 9, 5 render iso-8859-1, x-unknown, utf-16; the value is non-ASCII)
